@@ -75,6 +75,10 @@ void vf_file(const char *name, const char *content)
 long vf_stream_content_cxx(void *is, char *buf, long cap);   /* rt/vf_native_cxx.cpp */
 long vf_stream_content(void *is, char *buf, long cap) { return vf_stream_content_cxx(is, buf, cap); }
 
+void vf_guarded(void *p, size_t n, void *mutex, const char *name) { (void) p; (void) n; (void) mutex; (void) name; }
+void vf_guard_enable(int on) { (void) on; }
+long vf_locks_held(void) { return 0; }
+
 #ifdef VF_ENTRY
 void VF_ENTRY(void);
 int main(void) { VF_ENTRY(); printf("DONE\n"); return 0; }
